@@ -15,8 +15,11 @@ structure Net where
   waitVal  : Nat                       -- outstanding validate replies of the leader
   waitRun  : Nat                       -- outstanding run replies of the leader
   errors   : Nat                       -- error replies / panics seen anywhere
-  outputs  : List Nat                  -- number of results delivered per party
+  outputs  : List Nat                  -- number of results / error notifications delivered per party's destination
   executing : List Bool
+  constsWait : List Nat                -- per party: outstanding replies of its consts task (the task reports back when the last one arrived)
+  fails    : Nat                       -- how many RPC failures the environment may still inject
+  failed   : Option (Nat × Nat)        -- (caller, kind) of the injected failure; kind 0 = validate, 1 = run, 2 = consts
 deriving DecidableEq, Repr
 
 structure Setup where
@@ -37,10 +40,13 @@ def insertSorted (x : Nat × Cmd) : List (Nat × Cmd) → List (Nat × Cmd)
 def polOf (su : Setup) (p : Nat) : Pol :=
   ⟨p, su.leader, su.n, 42, true, su.outs.getD p false, su.consts.getD p false, (su.consts.filter id).length⟩
 
-def initNet (su : Setup) : Net :=
+/-- initial network; `fails` = number of coordination RPCs the environment may make fail. -/
+def initNetF (su : Setup) (fails : Nat) : Net :=
   { actors := List.replicate su.n {}, busy := List.replicate su.n false,
     flight := (List.range su.n).foldl (fun acc p => insertSorted (p, .schedule (polOf su p)) acc) [],
-    waitVal := 0, waitRun := 0, errors := 0, outputs := List.replicate su.n 0, executing := List.replicate su.n false }
+    waitVal := 0, waitRun := 0, errors := 0, outputs := List.replicate su.n 0, executing := List.replicate su.n false,
+    constsWait := List.replicate su.n 0, fails := fails, failed := none }
+def initNet (su : Setup) : Net := initNetF su 0
 
 def isContinuation : Cmd → Bool
   | .leaderValidated _ | .leaderPermit | .leaderRunDone _ | .compiled _ => true
@@ -65,7 +71,9 @@ def applyEff (su : Setup) (p : Nat) (net : Net) : Eff → Net
   | .selfSend "Run" => { net with flight := insertSorted (p, .run false) net.flight }
   | .selfSend _ => { net with flight := insertSorted (p, .internalConstsSent) net.flight }
   | .spawnConstsTask =>
-    { net with flight := insertSorted (p, .internalConstsSent) (((List.range su.n).filter (· != p)).foldl (fun acc q => insertSorted (q, .consts p true) acc) net.flight) }
+    -- the task sends `consts` to every other party and reports `InternalConstsSent` to its own actor once ALL replies have arrived
+    { net with flight := ((List.range su.n).filter (· != p)).foldl (fun acc q => insertSorted (q, .consts p true) acc) net.flight,
+               constsWait := net.constsWait.set p (su.n - 1) }
   | .compile => { net with flight := insertSorted (p, .compiled true) net.flight, busy := net.busy.set p true }
   | .spawnMpcTask =>
     let ex := net.executing.set p true
@@ -87,10 +95,36 @@ def deliver (cfg : Cfg) (su : Setup) (net : Net) (k : Nat) : Option Net :=
     let (s', effs) := step cfg (net.actors.getD p {}) c
     let net1 : Net := { net with actors := net.actors.set p s', flight := net.flight.eraseIdx k,
                                  busy := if (match c with | .leaderRunDone _ | .compiled _ | .leaderValidated false => true | _ => false) then net.busy.set p false else net.busy }
-    some (effs.foldl (applyEff su p) net1)
+    let net2 := effs.foldl (applyEff su p) net1
+    -- a delivered `consts` is answered to the sender's consts task; the last answer makes the task report back
+    match c with
+    | .consts sender _ =>
+      let w := net2.constsWait.getD sender 0
+      if w = 1 then some { net2 with constsWait := net2.constsWait.set sender 0, flight := insertSorted (sender, .internalConstsSent) net2.flight }
+      else some { net2 with constsWait := net2.constsWait.set sender (w - 1) }
+    | _ => some net2
+
+/-- the environment makes the k-th command in flight FAIL, if it is a coordination RPC (validate, external run, consts) and the
+    failure budget allows: the command never reaches its target and the caller's `try_join_all` returns the error. -/
+def failAt (cfg : Cfg) (su : Setup) (net : Net) (k : Nat) : Option Net :=
+  if net.fails = 0 then none else
+  match net.flight[k]? with
+  | some (_, .validate _) =>
+    if net.waitVal = 0 then none else
+    some { net with flight := insertSorted (su.leader, .leaderValidated false) (net.flight.eraseIdx k), waitVal := 0, fails := net.fails - 1, failed := some (su.leader, 0) }
+  | some (_, .run true) =>
+    if net.waitRun = 0 then none else
+    some { net with flight := insertSorted (su.leader, .leaderRunDone false) (net.flight.eraseIdx k), waitRun := 0, fails := net.fails - 1, failed := some (su.leader, 1) }
+  | some (_, .consts sender _) =>
+    if net.constsWait.getD sender 0 = 0 then none else
+    -- the task reports the error to its destination (if any); then: repaired tree → `Stop`, pinned tree → hands the client back and carries on
+    let outs := if su.outs.getD sender false then net.outputs.set sender (net.outputs.getD sender 0 + 1) else net.outputs
+    some { net with flight := insertSorted (sender, if cfg.constsFailStops then .stop else .internalConstsSent) (net.flight.eraseIdx k),
+                    constsWait := net.constsWait.set sender 0, outputs := outs, fails := net.fails - 1, failed := some (sender, 2) }
+  | _ => none
 
 def successors (cfg : Cfg) (su : Setup) (net : Net) : List Net :=
-  ((List.range net.flight.length).filterMap (deliver cfg su net)).eraseDups
+  ((List.range net.flight.length).filterMap (deliver cfg su net) ++ (List.range net.flight.length).filterMap (failAt cfg su net)).eraseDups
 
 def explore (cfg : Cfg) (su : Setup) : Nat → List Net → List Net → List Net × List Net   -- (visited, frontier)
   | 0, vis, fr => (vis, fr)
@@ -103,6 +137,15 @@ def terminal (net : Net) : Bool := net.flight.isEmpty
 def good (su : Setup) (net : Net) : Bool :=
   net.errors == 0 && net.actors.all (·.stopped) && (List.range su.n).all (fun p => net.outputs.getD p 0 == (if su.outs.getD p false then 1 else 0))
   && net.actors.all (fun s => !s.permit)
+
+/-- what C17 asks of a terminal state after an injected RPC failure: the CALLER's policy has ended, its permit is back, and it was
+    notified if it has a destination (for a failed `validate` the error reply of its own schedule call is the notification). -/
+def failOk (su : Setup) (net : Net) : Bool :=
+  match net.failed with
+  | none => good su net
+  | some (c, kind) =>
+    let a := net.actors.getD c {}
+    a.stopped && !a.permit && (if su.outs.getD c false && kind != 0 then decide (1 ≤ net.outputs.getD c 0) else true)
 
 /-- all reachable states; stuck = no successor although commands are in flight. -/
 def report (cfg : Cfg) (su : Setup) (fuel : Nat) : Nat × Nat × Nat × Nat :=
